@@ -206,6 +206,69 @@ CLAIMS["C14"] = dict(engine="SeqModel",
         "thorough 100 055 x 3). Concurrency is C01-C13. Trusted: Coq kernel, extraction (ExtrOcamlBasic only) + coq/driver/seq_run.ml, harness/seq, tools/runners/seq.py.",
    technique="Rocq/Coq proof (simulation between specification and per-strategy sequential models, induction over programs) + extracted-model differential testing on the real crate")
 
+RUNOK = ("for every run from an initial configuration within Main.RunOK (initial values null or valid addresses; no program uses the set_generation hook or Cache; in "
+         "every state no generation counter within 4 of wrapping, destination handles of commands empty, clone sources not dropped - conditions on the test program, "
+         "checked by an extracted mirror on every correspondence run and counted in the evidence; allocator returns addresses that are not live, not null, not the empty-slot marker)")
+MASTER = ("The proof is the inductive invariant Main.Master (about 20 000 lines of Coq, no axioms): node ownership and per-program-point assertions (WF2), reservation counting and "
+          "generation uniqueness (GenInv), envelope exclusivity (EnvInv), exact accounting (AccInv), slot coverage (ProtInv'), stack typing, and 'no thread has faulted', "
+          "each preserved by every step of every thread (step_Master). ")
+CLAIMS["C01"].update(
+   text="Coq theorem C01_no_use_after_free over ASModel (every count access to a destroyed value is a fault outcome of the model's step): " + RUNOK + ", for any number of threads "
+        "and containers, any programs and ANY schedule, no thread ever faults and no step touches the count of a destroyed value (C01_no_fault_events: no fault event at all); "
+        "at every count access the value's count is >= 1 (no_dead_access), on the fast path, the fallback and the helped path, for any number of guards, with freed addresses "
+        "reused at the scheduler's choice. " + MASTER + TIE + " Any FAULT of the harness arena or the model is a finding; the executable protection invariants run on every state.",
+   note=NOTE + "Sequentially consistent interleavings (weak-memory executions: C07). The generation wrap is outside RunOK (C13 proves no panic there; correspondence with preset counters). "
+        "Cache commands are outside RunOK (C16).",
+   technique="Rocq/Coq proof (inductive invariant over all schedules: accounting + protection + exchange of finite sums) + trace correspondence")
+CLAIMS["C02"].update(
+   text="Coq theorems over ASModel, " + RUNOK + ", any schedule: C02_accounting - in EVERY state, for every value address a: count(a) + #slots holding a + #increments a writer "
+        "still owes = #containers storing a + #hand-over envelopes holding a + #handles + #references held by frames (table AccDefs.fr), and a value is alive iff its count is "
+        "positive; C02_quiescent_counts - when no operation is in progress the count equals containers + handles minus the debts still in slots; C02_no_owner_destroyed - a "
+        "value nobody owns has count 0, is destroyed, and no slot holds it; the destructor runs in the very step whose decrement finds the count at 1 (tight). " + MASTER + TIE +
+        " The same equation is evaluated by the model driver on every state of every run, the final-state dump (all strong counts, slots, containers, live objects) must equal the model's.",
+   note=NOTE + "Cache commands and the generation wrap are outside RunOK.",
+   technique="Rocq/Coq proof (inductive counting invariant over all schedules, finitely supported sums) + trace correspondence + executable invariant on every state")
+CLAIMS["C03"].update(
+   text="Coq theorem C03_load_linearizable over ASModel (runs instrumented with a clock and the latest time each container held each value), " + RUNOK + ", any schedule: a completed "
+        "load / load_full of container c holds a value that c stored in one of the states between the call and the return - fast path (the confirming read), unhelped fallback "
+        "(candidate read after the request was published), helped fallback (the helper loaded the value after reading the request's generation, unique while it stays in the node: "
+        "GenInv; the envelope is not overwritten before the reader takes it: EnvInv); with the write chain (all writes of a container form ONE chain, all schedules) this gives the "
+        "real-time and per-thread monotonicity clauses. Defect D8 (a load returning another container's value) was found by planning this proof and repaired (83d9f2e). " + TIE +
+        " History oracle on every trace; grids of the D8 and stale-replacement schedule shapes.",
+   note=NOTE + "Stale relaxed reads are not modelled (orderings: C07); loads inside compare_and_swap/rcu/cache are not claimed here (C05/C06/C16).",
+   technique="Rocq/Coq proof (instrumented runs, inductive invariant over all schedules) + trace correspondence with a history oracle")
+CLAIMS["C09"].update(
+   text="Coq theorems over ASModel: (ProgressW) from every state satisfying the inductive invariant WF2 - hence every reachable state - a thread running alone while all others are "
+        "frozen wherever they are leaves its current store/swap/compare_and_swap/rcu/into_inner/drop after at most mu own steps, an explicit strictly decreasing measure; from a command "
+        "start: 68*H + k + 80 steps for swap-like operations, O(k*H + k^2 + H) for compare_and_swap and rcu (H debt nodes, k spurious weak-CAS failures injected by the scheduler); "
+        "no step reads or changes another thread's frames; nested helping loads are wait-free (C08). " + TIE + " Freeze sweeps suspend every other thread at every point of "
+        "scenario programs (incl. a fallback reader of a different container) and require the solo thread to finish.",
+   note=NOTE + "Faults and panics count as finished (excluded by C01/C13).",
+   technique="Rocq/Coq proof (decreasing measure over all states of the invariant, induction over solo schedules) + trace correspondence + solo-completion sweeps")
+CLAIMS["C10"].update(
+   text="Coq theorems over ASModel, " + RUNOK + ", any schedule: C10_guard_keeps_value - in every state the value a guard or owned handle refers to is alive; C10_guard_keeps_identity - "
+        "across every step that leaves the handle in place the object at that address is the same object (not destroyed, address not reused), whatever is stored meanwhile, after "
+        "the container is dropped, after the creating thread exited and its node was re-claimed; a guard is (pointer, slot named by node and index) and its drop/into_inner depend "
+        "only on that pair and the shared memory, not on the executing thread; the drop gives back exactly the debt or exactly one reference (accounting: C02). " + MASTER + TIE +
+        " Oracle: object identity seen through each guard at creation and at drop; guards moved between threads, > 8 guards held.",
+   note=NOTE + "Operations after TLS destruction are not modelled (tested on the crate by harness/late, see C11).",
+   technique="Rocq/Coq proof (inductive invariant over all schedules) + trace correspondence with an identity oracle")
+CLAIMS["C11"].update(
+   text="Coq theorems over ASModel, all schedules: C11_exclusive - in every reachable state a debt node has at most one holder and in_use = USED exactly when it has one; "
+        "C11_reservations - the active_writers word of every node equals the number of frames holding a reservation in it, a node is never marked UNUSED, and a node changes owner "
+        "only when no writer is inside (GenInv, under GenBound); sequential churn provably reuses one node (computed). " + TIE + " Oracles: node count / in_use / writers in the final "
+        "state, no claim of a node while a writer that read its control word still walks it; grid of the D8 schedule shape; harness/late runs operations from thread-local "
+        "destructors after arc-swap's own TLS is gone (the clause the model does not cover) on the real crate.",
+   technique="Rocq/Coq proof (inductive invariants over all schedules) + trace correspondence + a TLS-shutdown test on the crate")
+CLAIMS["C12"].update(
+   text="Coq theorems over ASModel, " + RUNOK + ", any schedule, any number of containers sharing the nodes: C12_load_own_container - the value a completed load/load_full of container c "
+        "holds was the content of THIS container in a state between call and return, also on the helping path; C12_help_same_container - a writer's successful exchange of a control "
+        "word answers a request for the writer's own container (generation uniqueness); C12_accounting - the count equation is exact with one value in several containers; a step of "
+        "any frame leaves other containers' storage alone, each container's writes form their own chain. Defects D2 and D8 were violations of this, found and repaired. " + TIE +
+        " Provenance oracle per container; multi-container programs; D8 grid.",
+   note=NOTE + "Containers of different pointee types: C15/C19.",
+   technique="Rocq/Coq proof (inductive invariants over all schedules) + trace correspondence with a provenance oracle")
+
 REASONS = {}
 
 def main():
@@ -225,7 +288,7 @@ def main():
              {"name": "SerdeModel", "path": "/verif/coq/Seq", "serves_properties": ["C20"], "kind_free_text": "Coq model of src/serde.rs; harness/seqx differential run"},
          ],
          "checks": [], "not_applicable": [],
-         "notes": "Fix commits in /repo: 45d9e22 (D4), bae028e (D5), d277032 (D2), 505454e (D1), 83d9f2e (D8); see known_findings.txt and DESIGN.md."}
+         "notes": "All 20 properties are decided by Coq theorems plus a checked tie to /repo. Fix commits in /repo: 45d9e22 (D4), bae028e (D5), d277032 (D2), 505454e (D1), 83d9f2e (D8); see known_findings.txt and DESIGN.md."}
     for p in props:
         pid = p["id"]
         if pid in CLAIMS:
